@@ -34,6 +34,11 @@ def execute(case, n):
     if op == "find_optimal":
         x = mkvar(sp, case["own"], case["hasown"], n % 2)
         sp.vars["x"] = x
+        if n % 3 == 1:
+            # the OTHER variables carry own-value costs too (finite, huge, infinite): they are not part of the best response
+            # of x nor of the cost find_optimal returns
+            for name, costs in (("y", [7, float("inf") if n % 2 else 2 ** 60]), ("z", [2 ** 40, 13])):
+                sp.vars[name] = VariableWithCostDict(name, sp.vars[name].domain, dict(zip(sp.vals[name], costs)))
         rels = [sp.matrix_rel(r, "c%d" % i) for i, r in enumerate(case["rels"])]
         asg = sp.asg(case["asg"]) if case["asg"] else {}
         vals, cost = R.find_optimal(x, dict(asg), rels, case["mode"])
